@@ -110,7 +110,7 @@ class PoolProp:
     pid = "C01"
     focus = "result"  # which oracle
     anchors = ["windpyutils/parallel/own_proc_pools.py", "windpyutils/buffers.py"]
-    quick_runs = 160
+    quick_runs = 450
     thorough_runs = 2500
     rule = ""
     trusted_base = ["Lean 4.33.0 kernel", "axioms: propext, Classical.choice, Quot.sound (audited per theorem)",
